@@ -18,11 +18,13 @@ fn scenario(id: &str) -> Option<&'static dyn Scenario> {
         "C10" => &scen::vecs::C10,
         "C05" => &scen::alias::C05,
         "C06" => &scen::registry::C06,
+        "C07" => &scen::gather::C07,
+        "C14" => &scen::gather::C14,
         _ => return None,
     })
 }
 
-pub const ALL: &[&str] = &["C01", "C02", "C03", "C05", "C06", "C10", "C11"];
+pub const ALL: &[&str] = &["C01", "C02", "C03", "C05", "C06", "C07", "C10", "C11", "C14"];
 
 fn tier_of(s: &str) -> Tier {
     match s {
